@@ -43,7 +43,11 @@ func corrupt(lines []string, d asm.Dialect, m int, r *Rng) ([]string, string) {
 	}
 	join := func(f []string) string { return "   " + strings.Join(f, " ") }
 	kind := ""
-	switch r.Intn(19) {
+	switch r.Intn(20) {
+	case 19:
+		// a byte-order mark in front of the file (editors write it); the truncations of such a file include the mark alone
+		kind = "bom-prefixed"
+		out[0] = "\ufeff" + out[0]
 	case 16, 17:
 		// lines around and beyond typical I/O buffer sizes: padding, long comments, long garbage
 		kind = "long-line"
@@ -189,7 +193,8 @@ func corrupt(lines []string, d asm.Dialect, m int, r *Rng) ([]string, string) {
 		out = append(out[:i], out[i+1:]...)
 	case 13:
 		kind = "garbage-line"
-		l := []string{"hello world", "1 2 3 4 5", ", , ,", "MOV.I $ 0 , $ 1 extra", "$ MOV.I 0, $ 1", "\x00\x01", "MOV.I $ 0, $", "a b c d e", "org", "end end"}[r.Intn(10)]
+		l := []string{"hello world", "1 2 3 4 5", ", , ,", "MOV.I $ 0 , $ 1 extra", "$ MOV.I 0, $ 1", "\x00\x01", "MOV.I $ 0, $", "a b c d e", "org", "end end",
+			"PIN 7", "pin 7", "pin", "LDP.AB # 1, $ 2", "EQU 1", "FOR 2", "ROF", "\x1a", "\ufeffMOV.I $ 0, $ 1"}[r.Intn(19)]
 		pos := r.Intn(len(out) + 1)
 		out = append(out[:pos], append([]string{l}, out[pos:]...)...)
 	case 14:
